@@ -4,18 +4,16 @@ from __future__ import annotations
 import importlib
 from typing import Any
 
-_GROUPS = {
-    "c16": "sim.fixtures.fx_c16",
-    "c16cat": "sim.fixtures.fx_c16",
-}
-
 
 def ids(group: str) -> list[str]:
     mod = importlib.import_module("sim.fixtures._index")
-    return list(mod.INDEX.get(group, []))
+    return [f"fx::{group}::{n}" for n in mod.INDEX.get(group, [])]
 
 
 def build(pid: str) -> Any:
     _, group, name = pid.split("::", 2)
-    mod = importlib.import_module(_GROUPS[group])
+    if group == "c16cat":
+        mod = importlib.import_module("sim.fixtures.catalogue")
+        return mod.build(group, name)
+    mod = importlib.import_module("sim.fixtures.lib")
     return mod.build(group, name)
